@@ -31,20 +31,25 @@ def skipWs : Src → Src
 /-- after `/*`: the rest after the first `*/`, if any -/
 def blockEnd : Src → Option Src
   | [] => none
-  | '*' :: '/' :: r => some r
-  | _ :: r => blockEnd r
+  | c :: r => if c == '*' && r.head? == some '/' then some r.tail else blockEnd r
 
-/-- after `//`: `(?:\\\n|[^\n])*` -/
-def lineEnd : Src → Src
-  | [] => []
-  | '\\' :: '\n' :: r => lineEnd r
-  | '\n' :: r => '\n' :: r
-  | _ :: r => lineEnd r
+mutual
+  /-- after `//`: `(?:\\\n|[^\n])*` -/
+  def lineEnd : Src → Src
+    | [] => []
+    | c :: r => if c == '\n' then c :: r else if c == '\\' then lineEndBs r else lineEnd r
+  /-- `lineEnd` right after a backslash: a newline here is a continuation -/
+  def lineEndBs : Src → Src
+    | [] => []
+    | c :: r => if c == '\n' then lineEnd r else if c == '\\' then lineEndBs r else lineEnd r
+end
 
 /-- a comment starting exactly here -/
 def comment : Src → Option Src
-  | '/' :: '*' :: r => blockEnd r
-  | '/' :: '/' :: r => some (lineEnd r)
+  | c :: d :: r =>
+    if c == '/' && d == '*' then blockEnd r
+    else if c == '/' && d == '/' then some (lineEnd r)
+    else none
   | _ => none
 
 theorem skipWs_length_le (s : Src) : (skipWs s).length ≤ s.length := by
@@ -53,23 +58,30 @@ theorem skipWs_length_le (s : Src) : (skipWs s).length ≤ s.length := by
   | cons c r ih => unfold skipWs; split <;> simp <;> omega
 
 theorem blockEnd_length_lt {s r : Src} (h : blockEnd s = some r) : r.length < s.length := by
-  fun_induction blockEnd s with
-  | case1 => simp at h
-  | case2 r' => simp at h; subst h; simp; omega
-  | case3 c t _ ih => have := ih h; simp; omega
+  induction s with
+  | nil => simp [blockEnd] at h
+  | cons c t ih =>
+    unfold blockEnd at h
+    split at h
+    · simp at h; subst h; cases t <;> simp <;> omega
+    · have := ih h; simp; omega
 
-theorem lineEnd_length_le (s : Src) : (lineEnd s).length ≤ s.length := by
-  fun_induction lineEnd s with
-  | case1 => simp
-  | case2 r ih => simp; omega
-  | case3 r => simp
-  | case4 c r _ _ ih => simp; omega
+theorem lineEnd_length_le (s : Src) : (lineEnd s).length ≤ s.length ∧ (lineEndBs s).length ≤ s.length := by
+  induction s with
+  | nil => simp [lineEnd, lineEndBs]
+  | cons c r ih =>
+    constructor
+    · unfold lineEnd; split <;> (try split) <;> simp <;> omega
+    · unfold lineEndBs; split <;> (try split) <;> simp <;> omega
 
 theorem comment_length_lt {s r : Src} (h : comment s = some r) : r.length < s.length := by
   unfold comment at h
   split at h
-  · have := blockEnd_length_lt h; simp; omega
-  · simp at h; subst h; rename_i t; have := lineEnd_length_le t; simp; omega
+  · split at h
+    · have := blockEnd_length_lt h; simp; omega
+    · split at h
+      · simp at h; subst h; rename_i t _ _; have := (lineEnd_length_le t).1; simp; omega
+      · simp at h
   · simp at h
 
 /-- `preParse`: skip `(ws* comment)* ws*` (fuel = number of comments that can still be skipped) -/
